@@ -701,6 +701,12 @@ static int tunnel_tun(int tun_fd, struct dnsfd *dns_fds)
 
 	/* find target ip in packet, in is padded with 4 bytes TUN header */
 	header = (struct ip*) (in + 4);
+	/* The kernel also hands us what is not IPv4 (IPv6 router solicitations
+	   and multicast reports on every interface that comes up): such a
+	   packet has no tunnel address as destination, whatever octets lie
+	   where ip_dst would be */
+	if (header->ip_v != 4)
+		return 0;
 	userid = find_user_by_ip(header->ip_dst.s_addr);
 	if (userid < 0)
 		return 0;
@@ -1969,10 +1975,11 @@ handle_full_packet(int tun_fd, struct dnsfd *dns_fds, int userid)
 	if (ret == Z_OK) {
 		struct ip *hdr;
 
-		/* a packet too short for an IP header has no destination */
+		/* a packet too short for an IP header has no destination,
+		   nor has one that is not IPv4 (see tunnel_tun()) */
 		hdr = (struct ip*) (out + 4);
 		touser = -1;
-		if (outlen >= 4 + sizeof(struct ip))
+		if (outlen >= 4 + sizeof(struct ip) && hdr->ip_v == 4)
 			touser = find_user_by_ip(hdr->ip_dst.s_addr);
 
 		if (touser == -1) {
